@@ -90,13 +90,6 @@ def pairsOf : List String → List (String × String)
 /-- `x` occurs as a contiguous substring of `u` -/
 def isInfix (x u : Str) : Bool := (List.range (u.length + 1)).any fun i => x.isPrefixOf (u.drop i)
 
-/-- known-finding class C10-linear-end-reverse-site: a linear part, an overhang longer than the
-site, and the LAST backward-pointing site begins within the final `oh - 1` letters. -/
-def kfLinearEnd (g : Geometry) (w : Nat → Char) (n : Nat) : Bool :=
-  match (linSites w n (rcSite g.site)).getLast? with
-  | some q => decide (q + g.oh > n)
-  | none => false
-
 def judge (f out : List String) : Verdict :=
   match parse f with
   | none => { corr := false, judge := none, cls := "bad-case" }
@@ -136,12 +129,10 @@ def judge (f out : List String) : Verdict :=
          decoded.all fun d => match d with
            | some a => a.isPerm expected
            | none => false)
-    let kf := !c.circ && c.dir && kfLinearEnd c.g w n
     let enz := if isBuiltin then c.name else if c.name == "" then "custom" else "unknown"
     let cls := (if nsites == 0 then "triv:" else "") ++ c.kind ++ (if c.kind == "case" then (if c.circ then "C" else "L") else "")
                 ++ "/" ++ enz ++ (if c.dir then "" else "/nondir")
                 ++ "/s" ++ toString nsites ++ "f" ++ toString expected.length
-                ++ (if kf then " kf:C10-linear-end-reverse-site" else "")
     { corr := corr, judge := if inDom then some j else none, cls := cls,
       detail := if corr && (j || !inDom) then "" else
         "model: " ++ lineOf m ++ " | spec: " ++ encFragments expected }
